@@ -79,8 +79,8 @@ def explore(ctx, extended=False, focus=None):
                "kind combinations, values from {0, +-1, small, inside, boundary of the bitlength range, beyond it, multiples of p}, "
                "plus composed chains; every register compared with the plain-Python reference; non-trivial = emitted a constraint "
                "or raised; distinct = (operator, kinds, bitlength, error class)")
-    n = ctx.n(700, 50000) * (4 if extended else 1)
-    mix = [(8, lambda rnd, cid, p: progs.op_case(rnd, cid, "valid", INT_OPS, KINDS, p=p)), (2, progs.unop_case),
+    n = ctx.n(5000, 100000) * (4 if extended else 1)
+    mix = [(8, lambda rnd, cid, p: progs.op_case(rnd, cid, "valid", INT_OPS, KINDS, p=p)), (4, progs.edge_case), (2, progs.unop_case),
            (1, progs.ite_case), (2, progs.chain_case), (1, lambda rnd, cid, p: progs.method_case(rnd, cid, p, ["if_else", "val", "check_zero", "check_nonzero", "to_bits_rt"]))]
     cases = corpus_cases("C05") + progs.generate(ctx.rnd, n, "c05x" if extended else "c05_", mix=mix)
     cases = [c for c in cases if c.cfg["ign"] == 0]
